@@ -255,9 +255,9 @@ func judgeC17(c *c17Case, obs *c17Obs, o *Outcome) {
 			o.Class("skipped")
 			return
 		}
-		if c.Real && strings.Contains(obs.Note, "could not establish") && strings.Contains(obs.Note, "context deadline exceeded") {
-			// real sockets on a busy machine: a handshake that ran into its 20 s budget decides nothing (in virtual time, where
-			// nothing can be slow, the same is a violation)
+		if c.Real && (strings.Contains(obs.Note, "i/o timeout") || strings.Contains(obs.Note, "context deadline exceeded")) {
+			// real sockets on a busy machine: a dial or a handshake that ran into its time budget decides nothing (in virtual
+			// time, where nothing can be slow, the same is a violation)
 			o.Class("inconclusive-handshake-timeout")
 			return
 		}
